@@ -1134,6 +1134,11 @@ class ExprMixin:
         self.raise_star(st.set(muts=st_after.muts), out)
         return st_after
 
+    @staticmethod
+    def _missing_ok(kw):
+        v = (kw or {}).get("missing_ok")
+        return {"missing_ok": True} if v and all(is_const(t) and t[1] is True for t in v) else None
+
     def _pathish(self, r):
         return is_rooted(r) or tag(r) in ("join", "sibling", "parent", "tmpname")
 
@@ -1150,7 +1155,7 @@ class ExprMixin:
                 st = self.emit("PROBE", "os.stat", [recv], n, st, frame)
                 return V(("probe", "stat", recv, st.muts)), st
             if meth == "unlink":
-                return V(NONE), self._mut_prim("REMOVE", "Path.unlink", [recv], n, st, frame, out)
+                return V(NONE), self._mut_prim("REMOVE", "Path.unlink", [recv], n, st, frame, out, extra=self._missing_ok(kw))
             if meth == "mkdir":
                 return V(NONE), self._mut_prim("MKDIR", "Path.mkdir", [recv], n, st, frame, out)
             if meth in ("rename", "replace") and args:
@@ -1288,7 +1293,7 @@ class ExprMixin:
                 st = self.emit("PROBE", "os.stat", [V(r)], n, st, frame)
                 return V(("probe", "stat", V(r), st.muts)), st
             if meth in ("unlink",):
-                return V(NONE), self._mut_prim("REMOVE", "Path.unlink", [V(r)], n, st, frame, out)
+                return V(NONE), self._mut_prim("REMOVE", "Path.unlink", [V(r)], n, st, frame, out, extra=self._missing_ok(kw))
             if meth in ("rename", "replace"):
                 return V(NONE), self._mut_prim("RENAME", "Path." + meth, [V(r), args[0]], n, st, frame, out)
             if meth == "open":
